@@ -27,7 +27,7 @@ def c10(a):
 
 def c09(a):
     runs = a.runs or (4000 if a.tier == "quick" else 200000)
-    budget = a.budget or (90 if a.tier == "quick" else 1800)
+    budget = a.budget or (120 if a.tier == "quick" else 1800)
     cat = 48 if a.tier == "quick" else 512
     return T.run_thread_check("C09", a.tier, [T.Part("blocks_sim", "asan", runs, cat)], budget, "DESIGN.md §4.1 C09", ASSUME_THREADS, REAL_VS_STUB_THREADS,
                               det_sample=300 if a.tier == "quick" else 1500)
